@@ -1168,6 +1168,19 @@ mut("ok-rawshared-with-tag-from", "benign", [], "RawShared::with_tag builds its 
             inner: self.inner.with_tag(tag),
             _marker: PhantomData,
         }""", """        Self::from(self.inner.with_tag(tag))""")])
+mut("tun-collect-trials-0", "break", ["C15", "C04"], "Global::COLLECTS_TRIALS = 0: a collection pops nothing",
+    [ed(I, "const COLLECTS_TRIALS: usize = 16;", "const COLLECTS_TRIALS: usize = 0;")], ["EBR-TUNABLES"], allow_error=True)
+mut("tun-max-objects-0", "break", ["C15", "C20"], "MAX_OBJECTS = 0: a bag holds nothing, defer spins",
+    [ed(I, "static mut MAX_OBJECTS: usize = 64;", "static mut MAX_OBJECTS: usize = 0;")], ["EBR-TUNABLES"])
+mut("tun-manual-events-0", "break", ["C20"], "MANUAL_EVENTS_BETWEEN_COLLECT = 0: the 1st manual event divides by zero",
+    [ed(I, "static mut MANUAL_EVENTS_BETWEEN_COLLECT: usize = 64;", "static mut MANUAL_EVENTS_BETWEEN_COLLECT: usize = 0;")], ["EBR-TUNABLES"])
+mut("ok-tun-max-objects-128", "benign", [], "MAX_OBJECTS = 128",
+    [ed(I, "static mut MAX_OBJECTS: usize = 64;", "static mut MAX_OBJECTS: usize = 128;")])
+mut("ok-tun-statics-to-consts", "benign", [], "the two `static mut` tunables become consts",
+    [ed(I, "static mut MAX_OBJECTS: usize = 64;", "const MAX_OBJECTS: usize = 64;"),
+     ed(I, "static mut MANUAL_EVENTS_BETWEEN_COLLECT: usize = 64;", "const MANUAL_EVENTS_BETWEEN_COLLECT: usize = 64;"),
+     ed(I, "Bag(Vec::with_capacity(unsafe { MAX_OBJECTS }))", "Bag(Vec::with_capacity(MAX_OBJECTS))"),
+     ed(I, "if manual_count % unsafe { MANUAL_EVENTS_BETWEEN_COLLECT } == 0 {", "if manual_count % MANUAL_EVENTS_BETWEEN_COLLECT == 0 {")])
 mut("wrap-atomicepoch-cas-always-ok", "break", ["C13", "C14"], "AtomicEpoch::compare_exchange reports Ok on failure",
     [ed(EPF, "Err(data) => Err(Epoch { data }),", "Err(data) => Ok(Epoch { data }),")], ["WRAP-ATOMICS"])
 mut("wrap-defer-none-runs-now", "break", ["C01", "C02", "C13"], "Option<&Guard>::defer_with_inner runs f at once when no guard is given",
